@@ -30,9 +30,10 @@ def marshal (p : Packet) : Bytes :=
   (if p.typ.toNat ≠ Generated.Wire.pgWithoutMessageType then [p.typ] else []) ++ p.lenBuf ++ p.body
 
 /-- `readData(false)` with `packet.dataLength = dl`, appending to `pre` (the current buffer):
-`descriptionBuf.Grow(dl)` panics on a negative count, `io.CopyN` fails on a short stream. -/
+a negative data length is rejected (`ErrPacketTruncated`, after the `fix:` – it used to panic in
+`descriptionBuf.Grow`), `io.CopyN` fails on a short stream. -/
 def readData (pre : Bytes) (dl : Int) (s : Bytes) : Out (Bytes × Bytes) :=
-  if dl < 0 then .panic else do
+  if dl < 0 then .err else do
     let (d, rest) ← readN s dl.toNat
     pure (pre ++ d, rest)
 
